@@ -118,6 +118,7 @@ type TraceEv struct {
 	Res  bool // lookup: found
 	Val  int  // update: object id of the stored value
 	Site string
+	Name string // aload/astore: the name carried by the entry (first string field of the pointed-to struct), "" for nil
 }
 
 type LockEv struct {
@@ -234,6 +235,7 @@ type Engine struct {
 	abortMsg     string       // set when an exploration is pointless to continue (see symLoopLimit): every remaining path is cut with it
 	symLoopLimit int          // >0: a loop whose condition is symbolic and not byte-local is cut after this many iterations (message-level items fall back to concrete text lengths)
 	havocLookup  map[int]bool // map objects whose lookups answer nondeterministically (C19 layer 3)
+	havocAtomic  []string     // non-nil: atomic.Pointer loads of shared cells answer nondeterministically (nil, or an entry carrying one of these names)
 	lazy         int          // >0: inside a merged sub-exploration: byte-local branch conditions fork without a feasibility query
 }
 
